@@ -706,6 +706,10 @@ func TypedSchema() *rapid.Generator[SchemaTree] {
 						k := rapid.IntRange(1, len(d.Fields)-1).Draw(t, "splitat")
 						base.Fields, ext.Fields = d.Fields[:k:k], d.Fields[k:]
 					}
+					if len(d.Fields) > 0 && g.chance("bodyless", 5) {
+						// a definition without a field block; every field comes from the extension
+						base.Fields, ext.Fields = nil, d.Fields
+					}
 					if d.Kind != "INPUT_OBJECT" && len(d.Interfaces) > 0 && g.chance("splitimpl", 2) {
 						base.Interfaces, ext.Interfaces = nil, d.Interfaces
 					}
@@ -726,6 +730,36 @@ func TypedSchema() *rapid.Generator[SchemaTree] {
 				nonEmpty := len(ext.Fields)+len(ext.EnumValues)+len(ext.Types)+len(ext.Directives)+len(ext.Interfaces) > 0
 				addDef(&base)
 				if nonEmpty {
+					// sometimes two extensions of the same type
+					if g.chance("twoexts", 2) {
+						ext2 := &ref.TypeDef{Kind: d.Kind, Name: d.Name}
+						if n := len(ext.Fields); n > 1 {
+							k := rapid.IntRange(1, n-1).Draw(t, "split2at")
+							ext.Fields, ext2.Fields = ext.Fields[:k:k], ext.Fields[k:]
+						}
+						if n := len(ext.EnumValues); n > 1 {
+							k := rapid.IntRange(1, n-1).Draw(t, "split2at")
+							ext.EnumValues, ext2.EnumValues = ext.EnumValues[:k:k], ext.EnumValues[k:]
+						}
+						if n := len(ext.Types); n > 1 {
+							k := rapid.IntRange(1, n-1).Draw(t, "split2at")
+							ext.Types, ext2.Types = ext.Types[:k:k], ext.Types[k:]
+						}
+						if n := len(ext.Directives); n > 1 {
+							k := rapid.IntRange(1, n-1).Draw(t, "split2at")
+							ext.Directives, ext2.Directives = ext.Directives[:k:k], ext.Directives[k:]
+						} else if n == 1 && len(ext.Fields)+len(ext.EnumValues)+len(ext.Types)+len(ext.Interfaces) > 0 && g.chance("dirsto2", 2) {
+							ext.Directives, ext2.Directives = nil, ext.Directives
+						}
+						if len(ext.Interfaces) > 0 && len(ext.Fields)+len(ext.Directives) > 0 && g.chance("implto2", 2) {
+							ext.Interfaces, ext2.Interfaces = nil, ext.Interfaces
+						}
+						addExt(ext)
+						if len(ext2.Fields)+len(ext2.EnumValues)+len(ext2.Types)+len(ext2.Directives)+len(ext2.Interfaces) > 0 {
+							addExt(ext2)
+						}
+						continue
+					}
 					addExt(ext)
 				}
 				continue
